@@ -329,8 +329,8 @@ func (m *Message) SetType(t MessageType) {
 // Encode re-encodes message into m.Raw.
 func (m *Message) Encode() {
 	m.Raw = m.Raw[:0]
-	m.WriteHeader()
 	m.Length = 0
+	m.WriteHeader()
 	m.WriteAttributes()
 }
 
